@@ -374,3 +374,21 @@ MUTANTS += [
         (NP, "                    if self.lazywrites:\n                        self.lazywrites.extend(lws)\n                        break",
              "                    if self.lazywrites:\n                        self.lazywrites.extend(lws if len(lws) < 400 else lws[:-1])\n                        break")]),
 ]
+
+MUTANTS += [
+    # ---------------- C13 -------------------------------------------------
+    dict(id="c13_revert_fix_d14", props=["C13"], edits=[
+        (PV, "    finally:\n", "    except AssertionError:\n        raise\n    else:\n")]),
+    dict(id="c13_cache_insert_in_finally", props=["C13"], edits=[
+        (H, "    nbs = []\n    for link in vert.links:\n", "    nbs = []\n    try:\n      return _nb_body(vert, nbs, direction_sensitive, unknown_handling, filterfunc)\n    finally:\n      vert._qa_neighbors_insert(nbs, direction_sensitive, unknown_handling, filterfunc)\n\n\ndef _nb_body(vert, nbs, direction_sensitive, unknown_handling, filterfunc):\n    for link in vert.links:\n"),
+        (H, "    # see note near top of function about justification for this ignore\n    # pylint: disable-next=protected-access\n    vert._qa_neighbors_insert(\n        nbs, direction_sensitive, unknown_handling, filterfunc\n    )\n\n    return nbs", "    return nbs")]),
+    dict(id="c13_plaintext_memo_attr", props=["C13"], edits=[
+        (PT, "        if rfunc:\n            start = rfunc(vert)\n", "        if rfunc:\n            vert._rendered = True\n            start = rfunc(vert)\n")]),
+    dict(id="c13_puml_title_cached_on_vertex", props=["C13"], edits=[
+        (PU, "    if \"user_render_func\" in opts:\n        return opts[\"user_render_func\"](vertex, options)\n", "    if \"user_render_func\" in opts:\n        vertex.puml_busy = True\n        out = opts[\"user_render_func\"](vertex, options)\n        del vertex.puml_busy\n        return out\n")]),
+    dict(id="c13_dft_marks_vertices", props=["C13"], edits=[
+        (DF, "    visited[v] = None\n\n    if (ff_result and ff_result(v)) or (not ff_result):", "    visited[v] = None\n    v._dft_mark = 1\n    try:\n        keep = (ff_result and ff_result(v)) or (not ff_result)\n    finally:\n        pass\n    del v._dft_mark\n\n    if keep:")]),
+    dict(id="c13_bft_temp_unlink_on_filter", props=["C13"], edits=[
+        (BF, "    visited = set()\n    queue = collections.deque([start])\n    visited.add(start)\n\n    if (ff_result and ff_result(start)) or (not ff_result):\n        yield start",
+             "    visited = set()\n    queue = collections.deque([start])\n    visited.add(start)\n    start.bft_root = True\n\n    if (ff_result and ff_result(start)) or (not ff_result):\n        yield start\n    del start.bft_root")]),
+]
